@@ -260,6 +260,27 @@ mod rel {
             profiles: (0..ng).map(|_| { let n = 1 + r.below(3); (0..n).map(|_| if r.below(2) == 0 { BuildProfile::Enabled(r.pick(PROFS).to_string()) } else { BuildProfile::Disabled(r.pick(PROFS).to_string()) }).collect() }).collect(),
         }
     }
+    /// C10 / C14 (second clause): the strict lossless reader accepts the printed field and shows the same structure
+    pub fn run_lossless() -> Result<usize, Fail> {
+        use debian_control::lossless::relations::Relations as LRelations;
+        let mut r = Rng(0xA0761D6478BD642F);
+        let mut n = 0;
+        for _ in 0..4000 {
+            let ne = 1 + r.below(3);
+            let rels = Relations((0..ne).map(|_| { let na = 1 + r.below(2); (0..na).map(|_| gen(&mut r)).collect() }).collect());
+            let t = rels.to_string();
+            n += 1;
+            let ll = match LRelations::from_str(&t) {
+                Ok(x) => x,
+                Err(e) => return Err(Fail { prop: "C10".into(), input: t.clone(), what: "strict lossless reader rejects a well-formed field".into(), expected: "Ok".into(), got: e }),
+            };
+            if ll.to_string() != t { return Err(Fail { prop: "C10".into(), input: t.clone(), what: "printed text differs".into(), expected: t.clone(), got: ll.to_string() }); }
+            let got: Vec<Vec<(String, Option<String>, Option<(VersionConstraint, String)>, Option<Vec<String>>, Vec<Vec<BuildProfile>>)>> = ll.entries().map(|e| e.relations().map(|x| (x.name(), x.archqual(), x.version().map(|(c, v)| (c, v.to_string())), x.architectures().map(|a| a.collect()), x.profiles().collect())).collect()).collect();
+            let want: Vec<Vec<(String, Option<String>, Option<(VersionConstraint, String)>, Option<Vec<String>>, Vec<Vec<BuildProfile>>)>> = rels.0.iter().map(|e| e.iter().map(|x| (x.name.clone(), x.archqual.clone(), x.version.clone().map(|(c, v)| (c, v.to_string())), x.architectures.clone(), x.profiles.clone())).collect()).collect();
+            if got != want { return Err(Fail { prop: "C10".into(), input: t.clone(), what: "entries / alternatives / names / qualifiers / versions / architectures / profiles differ".into(), expected: format!("{:?}", want), got: format!("{:?}", got) }); }
+        }
+        Ok(n)
+    }
     pub fn run() -> Result<usize, Fail> {
         let mut r = Rng(0xD1B54A32D192ED03);
         let mut n = 0;
@@ -289,6 +310,12 @@ fn main() {
     let args: Vec<String> = std::env::args().collect();
     if args.len() < 2 { eprintln!("usage: vwit <C03|C04|C06|C08>"); std::process::exit(3); }
     let prop = args[1].as_str();
+    if prop == "C10" {
+        match rel::run_lossless() {
+            Ok(n) => { eprintln!("vwit C10: no failing input among {} relation fields", n); return; }
+            Err(f) => f.print_and_exit(),
+        }
+    }
     if prop == "C14" {
         match rel::run() {
             Ok(n) => { eprintln!("vwit C14: no failing input among {} relations and as many relation fields", n); return; }
